@@ -13,6 +13,7 @@ import (
 
 	sdk "github.com/cosmos/cosmos-sdk/types"
 	authtypes "github.com/cosmos/cosmos-sdk/x/auth/types"
+	banktypes "github.com/cosmos/cosmos-sdk/x/bank/types"
 	distrtypes "github.com/cosmos/cosmos-sdk/x/distribution/types"
 	govtypes "github.com/cosmos/cosmos-sdk/x/gov/types"
 	"github.com/ethereum/go-ethereum/accounts/abi"
@@ -23,6 +24,7 @@ import (
 	"github.com/Canto-Network/Canto/v8/contracts"
 	erc20types "github.com/Canto-Network/Canto/v8/x/erc20/types"
 	govshuttletypes "github.com/Canto-Network/Canto/v8/x/govshuttle/types"
+	inflationtypes "github.com/Canto-Network/Canto/v8/x/inflation/types"
 )
 
 func init() { runners["C20"] = runC20 }
@@ -48,6 +50,10 @@ type c20Op struct {
 type c20Case struct {
 	Ops   []c20Op  `json:"ops"`
 	Watch []uint64 `json:"watch"` // ids queried after every message (ids of all ops are always added)
+	// RegisteredCoins: number of coins the erc20 module registers (RegisterCoin: one contract deployment each, which
+	// advances the erc20 module account's sequence) before the first proposal - another module's history; the store
+	// contract must still be deployed at the address derived from the govshuttle account's own sequence
+	RegisteredCoins int `json:"registered_coins,omitempty"`
 }
 
 // ABI-decoded result of QueryProp
@@ -461,6 +467,9 @@ func runC20(e *Env) {
 				kase.Ops = append(kase.Ops, e.c20GenOp(gov, others))
 			}
 			kase.Watch = []uint64{0, 1, uint64(2 + e.Pick(20))}
+			if e.Chance(0.5) {
+				kase.RegisteredCoins = 1 + e.Pick(3)
+			}
 		}
 		// watched ids: given ones + every id an op names or may default to
 		set := map[uint64]bool{}
@@ -478,6 +487,17 @@ func runC20(e *Env) {
 		sort.Slice(watch, func(i, j int) bool { return watch[i] < watch[j] })
 
 		ctx, _ := baseCtx.CacheContext()
+		for r := 0; r < kase.RegisteredCoins; r++ {
+			base := fmt.Sprintf("regcoin%d", r)
+			if err := a.BankKeeper.MintCoins(ctx, inflationtypes.ModuleName, sdk.NewCoins(sdk.NewInt64Coin(base, 1))); err != nil {
+				panic(err)
+			}
+			if _, err := a.Erc20Keeper.RegisterCoin(ctx, banktypes.Metadata{Description: "verif coin", Base: base, Display: "d" + base, Name: base, Symbol: "REG",
+				DenomUnits: []*banktypes.DenomUnit{{Denom: base, Exponent: 0}, {Denom: "d" + base, Exponent: 6}}}); err != nil {
+				panic(err)
+			}
+			e.Stats.Count("prep:coin-registered-by-erc20-before-the-first-proposal")
+		}
 		in := &c20Intern{names: map[string]string{}}
 		pre, _ := c20Observe(a, ctx, in, watch)
 		var steps []string
